@@ -6,11 +6,14 @@
 #include <set>
 #include <mutex>
 #include <string>
+#include <cstring>
+#include <unistd.h>
 
 #define private public
 #define protected public
 #include "errorlogger.h"
 #include "executor.h"
+#include "processexecutor.h"
 #undef private
 #undef protected
 
@@ -284,6 +287,59 @@ VH_CMD(upd) {
     Fields out;
     flagsOut(l, out);
     return out;
+}
+
+// id file line symbol poly -> Suppression::toString()
+VH_CMD(sstr) {
+    SuppressionList::Suppression s;
+    s.errorId = a.at(0);
+    s.fileName = a.at(1);
+    s.lineNumber = static_cast<int>(vhToLL(a.at(2)));
+    s.symbolName = a.at(3);
+    s.isPolyspace = a.at(4) == "1";
+    return {s.toString()};
+}
+
+// buf -> ProcessExecutor::handleRead on a REPORT_SUPPR record carrying buf (through a real pipe, empty
+// suppression list): the suppression the parent ends up with
+VH_CMD(sread) {
+    const std::string buf = a.empty() ? std::string() : a.at(0);
+    int fds[2];
+    if (pipe(fds) != 0)
+        return {"E", "pipe"};
+    const char type = '4';
+    const unsigned int len = static_cast<unsigned int>(buf.size());
+    std::string frame(1, type);
+    frame.append(reinterpret_cast<const char*>(&len), sizeof(len));
+    frame += buf;
+    if (write(fds[1], frame.data(), frame.size()) != static_cast<ssize_t>(frame.size())) {
+        close(fds[0]); close(fds[1]);
+        return {"E", "write"};
+    }
+    close(fds[1]);
+    Suppressions supprs;
+    Settings settings;
+    settings.jobs = 2;
+    settings.templateFormat = "{message}";
+    Recorder rec;
+    const std::list<FileWithDetails> files;
+    const std::list<FileSettings> fileSettings;
+    ProcessExecutor ex(files, fileSettings, settings, supprs, rec, nullptr, nullptr);
+    unsigned int result = 0;
+    Fields out;
+    try {
+        ex.handleRead(fds[0], result, "f");
+    } catch (const std::runtime_error& e) {
+        close(fds[0]);
+        return {"E", std::string("runtime_error:") + e.what()};
+    }
+    close(fds[0]);
+    const auto l = supprs.nomsg.getSuppressions();
+    if (l.size() != 1)
+        return {"n", std::to_string(l.size())};
+    const auto& s = l.front();
+    return {"ok", s.errorId, s.fileName, std::to_string(s.lineNumber), s.symbolName, vhBool(s.isPolyspace), std::to_string(s.column),
+            vhBool(s.checked), vhBool(s.matched), s.extraComment};
 }
 
 VH_MAIN()
